@@ -673,6 +673,9 @@ def run(rep: core.Report):
     _run_main(rep)
     _r09h(rep)
     _r09j(rep)
+    from rules import shared_sorted
+
+    shared_sorted.run(rep, "R09k", ["phonopy/structure/grid_points.py", "phonopy/phonon/moment.py", "phonopy/phonon/mesh.py"])
     from rules import shared_bcast
 
     shared_bcast.run(rep, "R09i", [r for r in ["phonopy/structure/grid_points.py", "phonopy/phonon/moment.py", "phonopy/phonon/dos.py", "phonopy/phonon/thermal_properties.py"] if (core.REPO / r).is_file()])
